@@ -2,6 +2,7 @@ import Oas3Model.Driver.Util
 import Oas3Model.Driver.Graph
 import Oas3Model.Model.Client
 import Oas3Model.Model.Depth
+import Oas3Model.Model.Registry
 open Lean Oas3.Driver Oas3.Graph
 
 namespace Oas3.Driver.Cli
@@ -16,6 +17,15 @@ partial def namesIn (j : Json) : List String :=
       (if k == "parameters" then (match v with | .arr a => a.toList.filterMap fun p => (p.getObjValAs? String "name").toOption | _ => []) else []) ++
       namesIn v
   | .arr a => a.toList.flatMap namesIn
+  | _ => []
+
+/-- every string among `enum` / `const` values of the document (they become variant / type names) -/
+partial def enumStringsIn (j : Json) : List String :=
+  match j with
+  | .obj m => m.toList.flatMap fun (k, v) =>
+      (if k == "enum" then (match v with | .arr a => a.toList.filterMap fun x => x.getStr?.toOption | _ => []) else []) ++
+      (if k == "const" then (match v with | .str x => [x] | _ => []) else []) ++ enumStringsIn v
+  | .arr a => a.toList.flatMap enumStringsIn
   | _ => []
 
 def methodsIn (spec : Json) : List String :=
@@ -61,10 +71,149 @@ partial def refsIn (j : Json) : List String :=
   | .arr a => a.toList.flatMap refsIn
   | _ => []
 
+
+/-! ### spec-side predicates of the cycle shapes that overflow the stack on today's binary (finding F12-1, F12-7)
+
+Every predicate below was written from a shape REPRODUCED on the unchanged binary (corpus/C12.jsonl); a cycle
+through any other keyword / nesting (inline allOf members, `not`, `prefixItems`, `additionalProperties: {$ref}`,
+`properties: {f: {$ref}}` …) generates fine today and is therefore NOT excused. -/
+
+def componentSchemas (spec : Json) : List (String × Json) :=
+  match (fieldD (fieldD spec "components" (Json.mkObj [])) "schemas" (Json.mkObj [])) with
+  | .obj m => m.toList
+  | _ => []
+
+def schemaRefName (x : Json) : Option Oas3.Depth.Name := match x.getObjVal? "$ref" with
+  | .ok (.str r) => if r.startsWith "#/components" && refShapeOk r then some ((r.splitOn "/").getLast!.toList) else none
+  | _ => none
+
+def hasType (v : Json) (t : String) : Bool :=
+  match v.getObjVal? "type" with
+  | .ok (.str s) => s == t
+  | .ok (.arr a) => a.toList.any (· == Json.str t)
+  | _ => false
+
+def nonEmptyMember (v : Json) (k : String) : Bool :=
+  match v.getObjVal? k with
+  | .ok (.obj m) => !m.toList.isEmpty
+  | .ok (.arr a) => !a.isEmpty
+  | _ => false
+
+def memberList (v : Json) (k : String) : List Json :=
+  match v.getObjVal? k with | .ok (.arr a) => a.toList | _ => []
+
+/-- `SchemaExt::is_primitive`: nothing that would make the schema a named struct / enum / union -/
+def primLike (v : Json) : Bool :=
+  !nonEmptyMember v "properties" && !nonEmptyMember v "oneOf" && !nonEmptyMember v "anyOf" && !nonEmptyMember v "allOf" &&
+  (memberList v "enum").length ≤ 1
+
+/-- the component names `TypeResolver::primitive` reaches WITHOUT stopping at a named type: array → `items`
+(`array_item_type`: a `$ref` goes to `resolve_ref`, which resolves the target in place when it is primitive; an
+inline schema goes to `resolve_type`), map → INLINE `additionalProperties` (`additional_properties_type` stops at
+`type_ref` for a `$ref`). -/
+partial def primRefs (v : Json) : List Oas3.Depth.Name :=
+  (if hasType v "array" then
+    match v.getObjVal? "items" with
+    | .ok it => (match schemaRefName it with | some n => [n] | none => (match it with | .obj _ => primRefs it | _ => []))
+    | _ => []
+   else []) ++
+  (if hasType v "object" && !nonEmptyMember v "properties" then
+    match v.getObjVal? "additionalProperties" with
+    | .ok ap => (match schemaRefName ap with | some _ => [] | none => (match ap with | .obj _ => primRefs ap | _ => []))
+    | _ => []
+   else []) ++
+  -- an inline union on the way (`resolve_type_uncached` → `try_union` → `union_fallback` → `try_simple_fallback_type`):
+  -- an inline ARRAY variant is followed into `array_item_type`
+  ((memberList v "oneOf" ++ memberList v "anyOf").flatMap fun x =>
+    if (schemaRefName x).isNone && hasType x "array" then primRefs x else [])
+
+def isNullSchema (x : Json) : Bool := match x.getObjVal? "type" with | .ok (.str t) => t == "null" | _ => false
+
+/-- `is_wrapper_union` with an INLINE variant: a component that is nothing but a oneOf/anyOf with exactly one non-null
+variant, that variant an inline primitive schema without `additionalProperties` (`resolve_ref` → `try_union` →
+`union_fallback` → `try_simple_fallback_type`, which follows an ARRAY variant into `array_item_type`) -/
+def wrapperVariant (v : Json) : Option Json :=
+  if nonEmptyMember v "properties" || nonEmptyMember v "allOf" then none else
+  match (memberList v "oneOf" ++ memberList v "anyOf").filter (fun x => !isNullSchema x) with
+  | [x] => if (schemaRefName x).isNone && primLike x && (x.getObjVal? "additionalProperties").toOption.isNone && hasType x "array" then some x else none
+  | _ => none
+
+/-- alias graph of the type resolver: `A: array of array of $ref A`, `A: map of array of $ref A`,
+`A: array of $ref B` + `B: array of array of $ref A`, `A: anyOf[array of $ref B]` + `B: array of $ref A` … -/
+def primAliasGraph (spec : Json) : List (Oas3.Depth.Name × List Oas3.Depth.Name) :=
+  (componentSchemas spec).map fun (k, v) =>
+    (k.toList, if primLike v then primRefs v else match wrapperVariant v with | some x => primRefs x | none => [])
+
+/-- the components at which the resolver ENTERS such a chain (`resolve_ref` resolves a primitive target in place) -/
+def primComponents (spec : Json) : List Oas3.Depth.Name :=
+  ((componentSchemas spec).filter fun kv => primLike kv.2).map (·.1.toList)
+
+/-- the components one variant of an inline union leads to: a `$ref`, an inline array of it, a nested inline union / allOf -/
+partial def variantRefs (x : Json) : List Oas3.Depth.Name :=
+  match schemaRefName x with
+  | some n => [n]
+  | none =>
+    (match x.getObjVal? "items" with | .ok (.obj m) => variantRefs (.obj m) | _ => []) ++
+    ((memberList x "oneOf" ++ memberList x "anyOf" ++ memberList x "allOf").flatMap variantRefs)
+
+/-- the `$ref` variants of the INLINE oneOf/anyOf unions of one property schema (also below inline array items and
+inline object properties); the nullable wrapper `[X, null]` is no union (it becomes `Option<Box<X>>`). -/
+partial def inlineUnionRefs (p : Json) : List Oas3.Depth.Name :=
+  if (schemaRefName p).isSome then [] else
+  let variants := memberList p "oneOf" ++ memberList p "anyOf"
+  let nonNull := variants.filter (fun x => !isNullSchema x)
+  (if variants.length != nonNull.length && nonNull.length == 1 then [] else variants.flatMap variantRefs) ++
+  (match p.getObjVal? "items" with | .ok (.obj m) => inlineUnionRefs (.obj m) | _ => []) ++
+  (match p.getObjVal? "properties" with | .ok (.obj m) => m.toList.flatMap (fun kv => inlineUnionRefs kv.2) | _ => [])
+
+/-- helper-constructor graph (`MethodGenerator::build_constructors` → `resolve_struct_def` → `convert_struct` → the
+struct's inline unions → `build_constructors` …): struct `X` → struct `Y` when a property of `X` is an inline union
+with the variant `$ref Y` -/
+def helperCtorGraph (spec : Json) : List (Oas3.Depth.Name × List Oas3.Depth.Name) :=
+  let cs := componentSchemas spec
+  let objLike (v : Json) : Bool := hasType v "object" || nonEmptyMember v "properties"
+  let structs := (cs.filter fun kv => objLike kv.2).map (·.1.toList)
+  cs.map fun (k, v) =>
+    (k.toList, if objLike v then
+      (match v.getObjVal? "properties" with
+       | .ok (.obj m) => (m.toList.flatMap fun kv => inlineUnionRefs kv.2).filter structs.contains
+       | _ => [])
+     else [])
+
+/-- operations of the document as the registry sees them -/
+def opsOf (spec : Json) : List Oas3.Registry.Op :=
+  match spec.getObjVal? "paths" with
+  | .ok (.obj ps) => ps.toList.flatMap fun (path, item) => match item with
+      | .obj m => m.toList.filterMap fun (meth, o) =>
+          if ["get", "put", "post", "delete", "options", "head", "patch", "trace"].contains meth then
+            some { method := meth.toUpper.toList, path := path.toList,
+                   operationId := match o.getObjVal? "operationId" with | .ok (.str s) => some s.toList | _ => none }
+          else none
+      | _ => []
+  | _ => []
+
+/-- value of `--flag v` / `--flag=v` in the command line of the run -/
+def flagValue (flags : List String) (name : String) : Option String :=
+  match flags.dropWhile (· != name) with
+  | _ :: v :: _ => some v
+  | _ => (flags.find? (·.startsWith (name ++ "="))).map (·.drop (name.length + 1) |>.toString)
+
+def identLike (s : List Char) : Bool := match s with
+  | c :: r => (c.isAlpha || c == '_') && r.all (fun c => c.isAlphanum || c == '_')
+  | [] => false
+
+/-- some response (or request body) of the document offers two or more media types -/
+partial def multiContent (j : Json) : Bool :=
+  match j with
+  | .obj m => m.toList.any fun (k, v) => (k == "content" && (match v with | .obj c => c.toList.length ≥ 2 | _ => false)) || multiContent v
+  | .arr a => a.toList.any multiContent
+  | _ => false
+
 def promised (mode : String) : List String :=
   match mode with
   | "client-mod" => ["types.rs", "client.rs", "mod.rs"]
   | "server-mod" => ["types.rs", "server.rs", "mod.rs"]
+  | "list" => []
   | _ => ["<file>"]
 
 def outcome : Handler := fun req => do
@@ -73,6 +222,7 @@ def outcome : Handler := fun req => do
   let spec := fieldD inp "spec" Json.null
   let mode := (fieldD inp "mode" (Json.str "types")).getStr?.toOption.getD "types"
   let target := (fieldD inp "target" (Json.str "ok")).getStr?.toOption.getD "ok"
+  let flags : List String := ((arr (fieldD inp "flags" (Json.arr #[]))).toOption.getD []).filterMap fun x => x.getStr?.toOption
   let rc := match (fieldD impl "rc" (Json.num 0)) with | .num n => n.mantissa | _ => 0
   let timedOut := fieldD impl "timeout" (Json.bool false) == Json.bool true
   let before := fieldD impl "before" (Json.arr #[])
@@ -83,13 +233,22 @@ def outcome : Handler := fun req => do
   -- spec-side predicates for the known classes
   let g := allOfGraph spec
   let ag := aliasGraph spec
-  let allOfCycle := (g.any fun p => Oas3.Graph.cyclic g p.1 == some true) || (ag.any fun p => Oas3.Graph.cyclic ag p.1 == some true)
+  let pg := primAliasGraph spec
+  let allOfCycle := (g.any fun p => Oas3.Graph.cyclic g p.1 == some true) || (ag.any fun p => Oas3.Graph.cyclic ag p.1 == some true) ||
+    ((primComponents spec).any fun n => Oas3.Graph.cyclic pg n == some true)
+  let hg := helperCtorGraph spec
+  let helperCycle := !flags.contains "--no-helpers" && (hg.any fun p => Oas3.Graph.cyclic hg p.1 == some true)
+  -- F08-4 seen from C12: the registry's common-affix trimming leaves ids that are no identifiers
+  let idList (n : String) : Option (List Oas3.Registry.Id) := (flagValue flags n).map fun v => (v.splitOn ",").map String.toList
+  let trimmedBad := match Oas3.Registry.build { only := idList "--only", excluded := idList "--exclude" } (opsOf spec) with
+    | some es => es.any fun e => !identLike e.1
+    | none => false
   let badRef := (refsIn spec).any fun r => !refShapeOk r
   let names := namesIn spec
   let fieldOf (n : String) : List Char := Oas3.Client.fieldName n.toList
   let badField := names.any fun n => n.toList.all (fun c => c.toNat < 128) &&
     (let f := fieldOf n; f == ['_'] || (Oas3.Naming.rawPassthrough n.toList && !Oas3.Naming.legal .field n.toList))
-  let selfType := names.any fun n => n.toList.all (fun c => c.toNat < 128) && Oas3.Naming.toRustTypeName Oas3.Gen.prelude Oas3.Client.idTr n.toList == "r#Self".toList
+  let selfType := (names ++ enumStringsIn spec).any fun n => n.toList.all (fun c => c.toNat < 128) && Oas3.Naming.toRustTypeName Oas3.Gen.prelude Oas3.Client.idTr n.toList == "r#Self".toList
   let nonAscii := names.any fun n => n.toList.any (fun c => c.toNat ≥ 128)
   let methods := (methodsIn spec).map String.toLower
   let optTrace := methods.contains "options" || methods.contains "trace"
@@ -97,12 +256,16 @@ def outcome : Handler := fun req => do
   let signalled := rc < 0 || rc == 134 || rc == 139 || has "stack overflow"
   let judge :=
     if timedOut then verdict false [] "the command did not terminate within the time limit"
-    else if signalled then verdict false (if allOfCycle then ["KnownAllOfCycle"] else []) s!"killed by a signal / abort (rc={rc})"
+    else if signalled then verdict false ((if allOfCycle then ["KnownAllOfCycle"] else []) ++ (if helperCycle then ["KnownHelperCtorCycle"] else [])) s!"killed by a signal / abort (rc={rc})"
     else if panicked then
       let known :=
         (if optTrace && mode != "types" && has "reqwest::Method::" then ["KnownOptionsTrace"] else []) ++
         (if badField && (has "cannot be a raw identifier" || has "is not a valid Ident" || has "Ident is not allowed to be empty" || has "Ident cannot be a number") then ["KnownBadIdentPanic"] else []) ++
         (if has "is not a valid Ident" && (has "Vec<u8>" || has "EventStream<") then ["KnownVariantSuffixPanic"] else []) ++
+        -- the same defect with any other generic type string as the suffix (`OkVec<String>`, `OkOption<String>`): one
+        -- status offering several media types whose schemas are different non-named types
+        (if mode != "client" && multiContent spec && (has "Vec<" || has "Option<" || has "HashMap<") && (has ">\" is not a valid Ident") then ["KnownVariantSuffixPanic"] else []) ++
+        (if trimmedBad && (mode == "client" || mode == "client-mod") && (has "Ident cannot be a number" || has "is not a valid Ident" || has "Ident is not allowed to be empty") then ["KnownTrimmedIdPanic"] else []) ++
         (if selfType && has "r#Self" then ["KnownBadIdentPanic"] else []) ++
         (if badRef && has "oas3-" && has "src/spec/ref.rs" then ["KnownRefParsePanic"] else [])
       verdict false known s!"the generator panicked (rc={rc})"
